@@ -49,6 +49,11 @@ fn resolver_of_json(v: &Value) -> Resolver {
             .and_then(Value::as_array)
             .map(|a| a.iter().filter_map(|e| Some((e.get("iss")?.as_str()?.to_string(), key(e.get("key")?)?))).collect())
             .unwrap_or_default(),
+        by_kid: v
+            .get("by_kid")
+            .and_then(Value::as_array)
+            .map(|a| a.iter().filter_map(|e| Some((e.get("kid")?.as_str()?.to_string(), key(e.get("key")?)?))).collect())
+            .unwrap_or_default(),
     }
 }
 
